@@ -169,12 +169,14 @@ void mapped_case(Ctx &c) {
         }
         order = acts;
     }
+    int stale_for_dump = 0;
     c.dumper = [&]() {
         Spec s;
         s.set_one("config", c.cfg.name);
         s.set_one("case", c.case_idx);
         s.set_one("family", family);
         s.set_vec("order", order);
+        s.set_one("stale", stale_for_dump);
         s.set_vec("keys", d);
         return s;
     };
@@ -191,6 +193,19 @@ void mapped_case(Ctx &c) {
         o.write((const char *) d.data(), std::streamsize(n * sizeof(K)));
     }
     const bool c11 = c.prop("C11"), c12 = c.prop("C12");
+    // in half of the cases the output names already exist and hold something longer (an older, larger container): a
+    // constructor that does not replace the file leaves a stale tail behind
+    int stale = c.given ? c.given->one<int>("stale", 0) : int(c.rng.below(6));
+    auto junk = [&](const std::string &f, size_t bytes) {
+        std::ofstream o(f, std::ios::binary);
+        std::string block(4096, char(0x5a));
+        for (size_t w = 0; w < bytes; w += block.size()) o.write(block.data(), std::streamsize(std::min(block.size(), bytes - w)));
+    };
+    size_t expect_bytes = n * sizeof(K) + 4096;
+    if (stale == 1 || stale == 3) junk(fa, expect_bytes * 2 + 12345);
+    if (stale == 2 || stale == 3) junk(fb, expect_bytes * 3 + 777);
+    if (stale >= 1 && stale <= 3) c.count("cases_output_file_preexisting_longer");
+    stale_for_dump = stale;
 
     // ---- construct in the chosen order, all objects stay alive
     std::unique_ptr<M> obj[5];
@@ -216,6 +231,9 @@ void mapped_case(Ctx &c) {
     }
     size_t page_aligned = obj[0] && obj[0]->file_size_in_bytes() % vf_shim::page() == 0;
     if (c12) {
+        if (obj[0] && stampA.bytes.size() != obj[0]->file_size_in_bytes())
+            c.violation("files_differ", J().str("which", "file A is not as long as file_size_in_bytes() says").num("size_A", stampA.bytes.size())
+                                            .num("file_size_in_bytes", obj[0]->file_size_in_bytes()).num("n", n).num("preexisting", stale));
         if (stampA.bytes != stampB.bytes) {
             size_t i = 0;
             while (i < std::min(stampA.bytes.size(), stampB.bytes.size()) && stampA.bytes[i] == stampB.bytes[i]) ++i;
